@@ -92,13 +92,37 @@ func c12TimePlanFacts(repo string, sb *strings.Builder) error {
 	if err != nil {
 		return err
 	}
-	_, imf, err := ParseFile(repo, "query/context/intermediate_metric_context.go")
+	fsetI, imf, err := ParseFile(repo, "query/context/intermediate_metric_context.go")
 	if err != nil {
 		return err
 	}
 	fmt.Fprintf(sb, "/-- calls of calcTimeRangeAndInterval in RootMetricContext.MakePlan / IntermediateMetricContext.MakePlan -/\ndef rootMakePlanCalcCalls : Nat := %d\ndef intermediateMakePlanCalcCalls : Nat := %d\n",
 		c12CountCalls(FindFunc(rf, "RootMetricContext", "MakePlan"), "calcTimeRangeAndInterval"),
 		c12CountCalls(FindFunc(imf, "IntermediateMetricContext", "MakePlan"), "calcTimeRangeAndInterval"))
+
+	// is the intermediate's call guarded by "the statement has not been planned yet"?
+	guarded := false
+	if mp := FindFunc(imf, "IntermediateMetricContext", "MakePlan"); mp != nil {
+		ast.Inspect(mp.Body, func(m ast.Node) bool {
+			if is, ok := m.(*ast.IfStmt); ok && is.Init == nil && is.Else == nil && len(is.Body.List) == 1 {
+				var b strings.Builder
+				for _, f := range strings.Fields(c12Src(fsetI, is.Cond)) {
+					b.WriteString(f)
+				}
+				if b.String() == "ctx.statement.StorageInterval<=0" {
+					if es, ok := is.Body.List[0].(*ast.ExprStmt); ok {
+						if ce, ok := es.X.(*ast.CallExpr); ok {
+							if id, ok := ce.Fun.(*ast.Ident); ok && id.Name == "calcTimeRangeAndInterval" {
+								guarded = true
+							}
+						}
+					}
+				}
+			}
+			return true
+		})
+	}
+	fmt.Fprintf(sb, "/-- IntermediateMetricContext.MakePlan plans only `if ctx.statement.StorageInterval <= 0` -/\ndef intermediateCalcGuarded : Bool := %v\n", guarded)
 
 	fsetT, tf, err := ParseFile(repo, "pkg/timeutil/interval.go")
 	if err != nil {
